@@ -617,20 +617,22 @@ def lookupField (o : List (List Char × Val)) (k : List Char) : Option Val :=
   | [] => none
   | (k', v) :: r => if k' = k then some v else lookupField r k
 
+/-- the `match code.fw` / `match code.prec` of `do_std_format_codes_object_1`
+    (`usize::try_from(u32)` cannot fail on a 64-bit target) -/
+def objWidth (spec : Option FW) (star : Err) : Except Err Nat :=
+  match spec with
+  | none => .ok 0
+  | some (.inline v) => .ok v
+  | some .ext => .error star
+
 /-- One directive of `do_std_format_codes_object_1` + `object_2`. -/
 def stepObject (h : Host) (c : Code) (o : List (List Char × Val)) : Except Err (List Char) :=
-  match c.fw with
-  | some .ext => .error .objStarWidth
-  | fwS =>
-    let fw := match fwS with
-      | some (.inline v) => v
-      | _ => 0
-    match c.prec with
-    | some .ext => .error .objStarPrec
-    | precS =>
-      let prec := match precS with
-        | some (.inline v) => v
-        | _ => 0
+  match objWidth c.fw .objStarWidth with
+  | .error e => .error e
+  | .ok fw =>
+    match objWidth c.prec .objStarPrec with
+    | .error e => .error e
+    | .ok prec =>
       if c.conv = .pct then .ok (padField c.flags.left fw ['%'])
       else
         match c.mkey with
